@@ -36,8 +36,18 @@ theorem C18_stale_not_readmitted (s : St) (tid : Nat) (it : Item)
   have hne : s.disc ≠ it.tag := fun h => hst h.symm
   constructor <;> simp [step, hl, giveBackRes, hne]
 
-/-- KNOWN FINDING (tag race): the full statement — `Fresh` after every interleaving, including
-an `acquire` between `set_discriminant` and `clear` — is false for the code as it is. -/
+/-- **the full statement, for the protocol the provers follow after the `fix:` commit**: every interleaving
+of acquire / explicit give-back / drop / refill / clear / reset / `start_new_generation` by any number of
+users, in any order — no adjacency condition any more — keeps every pooled resource in the current
+generation, the bound, and the tag of every checked-out item equal to its resource's generation. -/
+theorem C18_fresh_every_interleaving (s0 : St) (h0 : Inv s0) (ops : List Op) (hok : ∀ op ∈ ops, OpOk op) :
+    Fresh (ops.foldl step s0) ∧ Bounded (ops.foldl step s0) ∧
+    (∀ x ∈ (ops.foldl step s0).held, x.2.tag = x.2.res.trueGen ∧ x.2.tag ≤ (ops.foldl step s0).disc) :=
+  run_inv s0 h0 ops hok
+
+/-- FIXED FINDING (tag race): with the two-call refresh the provers used before the `fix:` commit
+(`set_discriminant(n+1)` then `clear()`, which the pool's API still offers) the statement was false: an
+`acquire` between the two calls tags an old resource with the new discriminant. -/
 def C18_fresh_full_goal : Prop :=
   ∀ ops : List Op, (∀ op ∈ ops, match op with | .giveBack r d => r.trueGen = d | _ => True) →
     Fresh (ops.foldl step init)
@@ -55,6 +65,13 @@ theorem C18_item_giveback_counterexample_prefix :
 /-- and the same history is fine for the code as it is now -/
 theorem C18_item_giveback_fixed :
     Fresh ([Op.acquire 0, .setDisc 1, .clear, .giveBackItem 0, .giveBack ⟨1⟩ 1, .giveBack ⟨1⟩ 1].foldl step init) := by
+  intro r hr
+  revert r
+  decide
+
+/-- the racing history with the one-step generation change: the old resource is refused -/
+theorem C18_tag_race_repaired :
+    Fresh ([Op.acquire 0, .newGen, .dropItem 0, .giveBack ⟨1⟩ 1].foldl step init) := by
   intro r hr
   revert r
   decide
